@@ -82,22 +82,27 @@ func alphabet(thorough bool) []Op {
 		globalPayloads = append(globalPayloads, `{"writeQueueSize":1024}`, `{"writeQueueSize":1000}`)
 		defaultsPayloads = append(defaultsPayloads, `{"record":true}`)
 	}
-	// Fields that are PRESENT in the request with the zero value of their type (0, false, empty list): "changes
+	// Fields that are PRESENT in the request with the zero value of their type (0, false, "", empty list): "changes
 	// exactly the fields present" makes them overwrite like any other value, while a merge that decides presence
-	// by looking at the value (nil/zero/empty = absent) drops them. The lists are chosen so that the value they
-	// must replace is non-empty in the base configuration already (rtspUDPSourcePortRange defaults to
-	// [32768, 60999], apiAllowOrigins to ["*"]); maxReaders is 1 in the base path.
-	zeroPath := []string{`{"maxReaders":0,"record":false,"rtspUDPSourcePortRange":[]}`}
-	zeroGlobal := []string{`{"udpMaxPayloadSize":0,"apiAllowOrigins":[]}`}
-	zeroDefaults := []string{`{"maxReaders":0,"rtspUDPSourcePortRange":[]}`}
+	// by looking at the value (nil/zero/empty = absent) drops them. The fields are chosen so that the value they
+	// must replace is non-zero in the base configuration already (rpiCameraAWBGains defaults to [0, 0],
+	// rtspUDPSourcePortRange to [32768, 60999], apiAllowOrigins to ["*"], logFile to "mediamtx.log",
+	// webrtcIPsFromInterfaces to true; maxReaders is 1 in the base path) and that the zero value is a valid
+	// configuration without an effect on the (disabled) servers. rpiCameraAWBGains is only looked at by Validate and by
+	// the server when the source is a camera. An empty rtspUDPSourcePortRange (thorough tier) passes Validate whatever
+	// the source is, although a running RTSP source cannot work with it.
+	zeroPath := []string{`{"maxReaders":0,"record":false,"rpiCameraAWBGains":[]}`}
+	zeroGlobal := []string{`{"logFile":"","webrtcIPsFromInterfaces":false,"apiAllowOrigins":[]}`}
+	zeroDefaults := []string{`{"maxReaders":0,"rpiCameraAWBGains":[]}`}
 	if thorough {
 		zeroPath = []string{
-			`{"rtspUDPSourcePortRange":[]}`, // list of scalars: replaces [10000,10100] or the default
+			`{"rpiCameraAWBGains":[]}`,      // list of scalars: replaces the default [0,0]
+			`{"rtspUDPSourcePortRange":[]}`, // the same, replaces [10000,10100] or the default; read by a running RTSP source
 			`{"maxReaders":0,"record":false}`,
 			`{"alwaysAvailableTracks":[]}`, // list of structures: invalid on top of {"alwaysAvailable":true}
 		}
-		zeroGlobal = []string{`{"apiAllowOrigins":[]}`, `{"apiAllowOrigins":["https://a.example"]}`, `{"udpMaxPayloadSize":0}`}
-		zeroDefaults = []string{`{"rtspUDPSourcePortRange":[]}`, `{"maxReaders":0}`}
+		zeroGlobal = []string{`{"apiAllowOrigins":[]}`, `{"apiAllowOrigins":["https://a.example"]}`, `{"logFile":"","webrtcIPsFromInterfaces":false}`}
+		zeroDefaults = []string{`{"rtspUDPSourcePortRange":[]}`, `{"maxReaders":0,"rpiCameraAWBGains":[]}`}
 	}
 	var ops []Op
 	for _, k := range []string{"add", "patch", "replace"} {
